@@ -49,8 +49,11 @@ class E3:
         r = self.r
         st = St()
         CS, MS, G, N = [Lin.sym(x) for x in ("CS0", "MS0", "G0", "N0")]
+        UM = Lin.sym("UM")
+        st.num.add(ge(UM, 0))
         for s in (CS, MS, G, N):
             st.num.add(ge(s, 0))
+            st.num.add(le(s, UM))
         if with_inv:
             st.num.add(eq(CS, G))
             st.num.add(le(CS, MS))
@@ -200,6 +203,7 @@ class E3:
         self.exit_checks(b, outs, name)
         self.list_ghost_checks(ip, b, outs, name)
         self.sub_checks(ip, name)
+        self.add_checks(ip, name)
         self.insert_inv_checks(ip, name)
         self.eviction_checks(ip, b, name, arg_vals)
         if name in ("insert", "try_insert"):
@@ -312,6 +316,24 @@ class E3:
             n += 1
             chain = "/".join(p.split("::")[-1] for p in key[1][-3:])
             k = "%s:sub@%s#%d" % (name, chain, n)
+            self.rec("C01", k, o["ok"], "in `%s` (via %s): %s" % (name, chain, o["desc"]), o["loc"],
+                     {"not_entailed": o["failed"]} if o["failed"] else None, o.get("vacuous", False))
+
+    def add_checks(self, ip, name):
+        n = 0
+        seen = {}
+        for key, o in ip.obligs.items():
+            if key[0] != "add":
+                continue
+            chain_full = key[1]
+            # A-size: the size estimate of one pair (entry_size / mem_size bodies) is assumed representable
+            if any(p.split("::")[-1] in ("entry_size", "mem_size", "new") and ("entry" in p or "mem_size" in p) for p in chain_full[-2:]):
+                continue
+            chain = "/".join(p.split("::")[-1] for p in chain_full[-3:])
+            base = "%s:add->%s@%s" % (name, key[2], chain)
+            seen[base] = seen.get(base, 0) + 1
+            n += 1
+            k = base if seen[base] == 1 else "%s#%d" % (base, seen[base])
             self.rec("C01", k, o["ok"], "in `%s` (via %s): %s" % (name, chain, o["desc"]), o["loc"],
                      {"not_entailed": o["failed"]} if o["failed"] else None, o.get("vacuous", False))
 
@@ -770,7 +792,8 @@ def apply(ctx, res, prop, floor=None):
                  (prop == "C07" and rec["prop"] == "C16" and rec["key"].endswith(":no-unhinged-entry")) or \
                  (prop == "C07" and rec["prop"] == "C16" and (rec["key"].endswith(":no-link-into-unowned-table") or
                                                               rec["key"].endswith(":table-not-detached") or rec["key"].endswith(":no-unlinked-entry"))) or \
-                 (prop == "C11" and rec["prop"] == "C03" and rec["key"].startswith("mutate:"))
+                 (prop == "C11" and rec["prop"] == "C03" and rec["key"].startswith("mutate:")) or \
+                 (prop == "C10" and rec["prop"] == "C01" and ":add->" in rec["key"] and rec["key"].split(":")[0] in ("insert", "try_insert"))
         if rec["prop"] != prop and not shared:
             continue
         n += 1
